@@ -1,8 +1,19 @@
 (* C03 model: limits and assertions gate every instance.  Builds on the ModelTree of C01.
-   Mirrors AbstractPriorModel.instance_from_vector: length check, {prior: value} in id order,
-   every value within its prior's limits unless ignored (PriorLimitException), then
-   instance_for_arguments, which checks the assertions of every Model / Collection level before
-   constructing it (FitException), unless ignored. *)
+
+   Mirrors, one for one:
+     ArithmeticMixin.__lt__/__le__/__gt__/__ge__ (and the reflected call Python makes when the left
+       operand has no such method), ComparisonAssertion.__lt__/...           -> cmp_nodes, chain, denote
+     GreaterThanLessThan[Equal]Assertion / CompoundAssertion._instance_for_arguments -> holds
+     AbstractPriorModel.add_assertion                                        -> attached
+     AbstractPriorModel.check_assertions                                     -> check_all / check_level
+     AbstractPriorModel.instance_for_arguments: this level's assertions, then
+       Model / Collection / CompoundPrior._instance_for_arguments with `ignore_assertions`
+       handed down to every child level                                     -> status (recursive), instantiate
+     AbstractPriorModel.instance_from_vector                                 -> run
+     AbstractPriorModel.instance_from_path_arguments                         -> run_paths
+   `gate` is the specification: the same inequalities evaluated on the numbers, one flat list.
+   Outcomes the property does not speak about are explicit: `Err` (KeyError for an operand that is
+   not a parameter of the model, ZeroDivisionError, AttributeError / TypeError for unsupported shapes). *)
 From Coq Require Import List String Bool Arith.
 From Coq Require Import Floats.PrimFloat.
 From PAFCommon Require Import PyFloat.
@@ -11,57 +22,173 @@ Import ListNotations.
 Local Open Scope string_scope.
 Local Open Scope list_scope.
 
+Inductive err := EKey | EZero | EAttr | EType.
+
+(* outcome of a computation of the library: a value, the fit exception, or another exception *)
+Inductive res (A : Type) :=
+| Ok (a : A)
+| Fit
+| Err (e : err).
+Arguments Ok {A}. Arguments Fit {A}. Arguments Err {A}.
+
+Definition seq (a b : res unit) : res unit :=
+  match a with Ok _ => b | other => other end.
+
+Inductive cmpop := CLt | CLe | CGt | CGe.
+
 Section Gate.
   Variable V : Type.
   Variable bin : binop -> V -> V -> V.
+  Variable bin_ok : binop -> V -> V -> bool.   (* false: Python raises ZeroDivisionError *)
   Variable ltb leb : V -> V -> bool.
+  Variable of_bool : bool -> V.                (* a Python bool compared like a number *)
 
-  (* operands are priors, constants and arithmetic on them; the verdict of a comparison whose
-     operand has no value is an error (KeyError in the code) *)
-  Fixpoint operand (args : nat -> option V) (n : node V) : option V :=
+  (* ---------- operands of comparisons: parameters, constants, arithmetic on them ---------- *)
+  Fixpoint operand (args : nat -> option V) (n : node V) : res V :=
     match n with
-    | NPrior q => args q
-    | NConst v => Some v
+    | NPrior q => match args q with Some v => Ok v | None => Err EKey end
+    | NConst v => Ok v
     | NBin o _ _ l r =>
-        match operand args l, operand args r with
-        | Some a, Some b => Some (bin o a b)
-        | _, _ => None
+        match operand args l with
+        | Ok a =>
+            match operand args r with
+            | Ok b => if bin_ok o a b then Ok (bin o a b) else Err EZero
+            | Fit => Fit
+            | Err e => Err e
+            end
+        | Fit => Fit
+        | Err e => Err e
         end
-    | _ => None
+    | _ => Err EType
     end.
 
   Inductive assertion :=
   | ALt (lower greater : node V)           (* GreaterThanLessThanAssertion: lower < greater *)
   | ALe (lower greater : node V)           (* GreaterThanLessThanEqualAssertion: lower <= greater *)
   | AAnd (a b : assertion)                 (* CompoundAssertion *)
-  | ALit (b : bool).                       (* a plain Python bool (False fails, True is dropped) *)
+  | ALit (b : bool)                        (* a plain Python bool *)
+  | ALowB (strict : bool) (a : assertion) (greater : node V)   (* GreaterThanLessThan[Equal]Assertion whose LOWER operand is
+                                                                 a CompoundAssertion: its truth value is compared as 0/1 *)
+  | AGrB (strict : bool) (lower : node V) (a : assertion).     (* ... whose GREATER operand is a CompoundAssertion *)
 
-  Fixpoint holds (args : nat -> option V) (a : assertion) : option bool :=
+  Definition cmpv (strict : bool) (x y : V) : bool := if strict then ltb x y else leb x y.
+
+  Fixpoint holds (args : nat -> option V) (a : assertion) : res bool :=
     match a with
-    | ALt l g => match operand args l, operand args g with Some x, Some y => Some (ltb x y) | _, _ => None end
-    | ALe l g => match operand args l, operand args g with Some x, Some y => Some (leb x y) | _, _ => None end
+    | ALt l g =>
+        match operand args l with
+        | Ok x => match operand args g with Ok y => Ok (ltb x y) | Fit => Fit | Err e => Err e end
+        | Fit => Fit | Err e => Err e
+        end
+    | ALe l g =>
+        match operand args l with
+        | Ok x => match operand args g with Ok y => Ok (leb x y) | Fit => Fit | Err e => Err e end
+        | Fit => Fit | Err e => Err e
+        end
     | AAnd a b =>
         match holds args a with
-        | Some true => holds args b
+        | Ok true => match b with
+                     | ALit _ => Err EAttr      (* bool has no instance_for_arguments *)
+                     | _ => holds args b
+                     end
         | other => other
         end
-    | ALit b => Some b
+    | ALit b => Ok b
+    | ALowB s a g =>
+        match holds args a with
+        | Ok r => match operand args g with Ok y => Ok (cmpv s (of_bool r) y) | Fit => Fit | Err e => Err e end
+        | other => other
+        end
+    | AGrB s l a =>
+        match operand args l with
+        | Ok x => match holds args a with Ok r => Ok (cmpv s x (of_bool r)) | other => other end
+        | Fit => Fit | Err e => Err e
+        end
     end.
 
-  (* (a < b) < c etc.: comparing an assertion again *)
-  Definition assertion_right (a : assertion) : option (node V) :=
-    match a with ALt _ g | ALe _ g => Some g | _ => None end.
-  Definition assertion_left (a : assertion) : option (node V) :=
-    match a with ALt l _ | ALe l _ => Some l | _ => None end.
-  Definition chain_lt (a : assertion) (c : node V) : option assertion :=   (* a < c *)
-    option_map (fun g => AAnd a (ALt g c)) (assertion_right a).
-  Definition chain_le (a : assertion) (c : node V) : option assertion :=
-    option_map (fun g => AAnd a (ALe g c)) (assertion_right a).
-  Definition chain_gt (a : assertion) (c : node V) : option assertion :=   (* a > c *)
-    option_map (fun l => AAnd a (ALt c l)) (assertion_left a).
-  Definition chain_ge (a : assertion) (c : node V) : option assertion :=
-    option_map (fun l => AAnd a (ALe c l)) (assertion_left a).
+  (* ---------- how the comparison operators build assertion objects ---------- *)
+  Definition arith_like (n : node V) : bool :=
+    match n with NPrior _ | NBin _ _ _ _ _ => true | _ => false end.
 
+  Definition cmp_consts (op : cmpop) (a b : V) : bool :=
+    match op with CLt => ltb a b | CLe => leb a b | CGt => ltb b a | CGe => leb b a end.
+
+  Definition cmp_build (op : cmpop) (x y : node V) : assertion :=
+    match op with CLt => ALt x y | CLe => ALe x y | CGt => ALt y x | CGe => ALe y x end.
+
+  (* x op y where x, y are priors, arithmetic priors or floats *)
+  Definition cmp_nodes (op : cmpop) (x y : node V) : option assertion :=
+    match x, y with
+    | NConst a, NConst b => Some (ALit (cmp_consts op a b))
+    | _, _ => if arith_like x || arith_like y then Some (cmp_build op x y) else None
+    end.
+
+  (* first op other, where first is an assertion object; None: Python raises TypeError *)
+  Definition chain (first : assertion) (op : cmpop) (other : node V) : option assertion :=
+    match first with
+    | ALt l g | ALe l g =>
+        (* ComparisonAssertion.__lt__: CompoundAssertion(self, self._right < other); __gt__: self._left > other *)
+        let pivot := match op with CLt | CLe => g | CGt | CGe => l end in
+        option_map (AAnd first) (cmp_nodes op pivot other)
+    | AAnd _ _ =>
+        (* CompoundAssertion defines no comparison: Python calls the reflected method of `other` *)
+        if arith_like other then
+          Some (match op with
+                | CLt => ALowB true first other
+                | CLe => ALowB false first other
+                | CGt => AGrB true other first
+                | CGe => AGrB false other first
+                end)
+        else None
+    | _ => None
+    end.
+
+  Inductive recipe :=
+  | RLit (b : bool)
+  | RCmp (op : cmpop) (l r : node V)
+  | RChain (first : recipe) (op : cmpop) (other : node V).
+
+  Fixpoint denote (r : recipe) : option assertion :=
+    match r with
+    | RLit b => Some (ALit b)
+    | RCmp op x y => cmp_nodes op x y
+    | RChain f op o => match denote f with Some a => chain a op o | None => None end
+    end.
+
+  (* PREPARED for proposed_fixes/C03-chain-further (NOT the current code): every assertion object remembers
+     the lowest and the greatest operand of its chain, and a CompoundAssertion can be compared again:
+     < / <= put the new operand above the greatest, > / >= below the lowest *)
+  Definition ends_of (a : assertion) : option (node V * node V) :=
+    match a with ALt l g | ALe l g => Some (l, g) | _ => None end.
+
+  Definition chain_fixed (first : assertion) (e : node V * node V) (op : cmpop) (other : node V)
+    : option (assertion * (node V * node V)) :=
+    let pivot := match op with CLt | CLe => snd e | CGt | CGe => fst e end in
+    match cmp_nodes op pivot other with
+    | Some s => Some (AAnd first s, match op with CLt | CLe => (fst e, other) | CGt | CGe => (other, snd e) end)
+    | None => None
+    end.
+
+  Fixpoint denote_fixed (r : recipe) : option (assertion * option (node V * node V)) :=
+    match r with
+    | RLit b => Some (ALit b, None)
+    | RCmp op x y => match cmp_nodes op x y with Some a => Some (a, ends_of a) | None => None end
+    | RChain f op o =>
+        match denote_fixed f with
+        | Some (a, Some e) => match chain_fixed a e op o with Some (t, e') => Some (t, Some e') | None => None end
+        | _ => None
+        end
+    end.
+
+  (* add_assertion: `True` is dropped, everything else is appended *)
+  Definition attached (a : option assertion) : list assertion :=
+    match a with
+    | Some (ALit true) => []
+    | Some x => [x]
+    | None => []
+    end.
+
+  (* ---------- limits ---------- *)
   Definition limit := (nat * (V * V))%type.     (* prior id, lower, upper *)
 
   Definition within (lims : list limit) (args : nat -> option V) : bool :=
@@ -70,14 +197,18 @@ Section Gate.
                       | None => true
                       end) lims.
 
+  (* ---------- specification: one flat list of inequalities ---------- *)
   Definition all_hold (args : nat -> option V) (asserts : list assertion) : bool :=
-    forallb (fun a => match holds args a with Some true => true | _ => false end) asserts.
+    forallb (fun a => match holds args a with Ok true => true | _ => false end) asserts.
 
   Inductive verdict :=
   | VOk (i : ival V)
   | VLimit            (* PriorLimitException, a FitException *)
   | VAssert           (* FitException from check_assertions *)
-  | VLength.          (* AssertionError: vector of the wrong length *)
+  | VLength           (* AssertionError: vector of the wrong length *)
+  | VError (e : err). (* any other exception *)
+
+  Definition is_fit (v : verdict) : bool := match v with VLimit | VAssert => true | _ => false end.
 
   Definition gate (ignore : bool) (lims : list limit) (asserts : list assertion)
              (n : node V) (vec : list V) : verdict :=
@@ -88,32 +219,263 @@ Section Gate.
       else if negb (within lims args) then VLimit
       else if negb (all_hold args asserts) then VAssert
       else VOk (inst V bin args n).
+
+  (* ---------- the code: assertions live on levels and are checked level by level ---------- *)
+  Definition levels := list (path * list assertion).
+
+  Definition here (lv : levels) : list assertion :=
+    flat_map (fun e => match fst e with [] => snd e | _ => [] end) lv.
+
+  Definition below (k : string) (lv : levels) : levels :=
+    flat_map (fun e => match fst e with
+                       | k' :: p' => if String.eqb k k' then [(p', snd e)] else []
+                       | [] => []
+                       end) lv.
+
+  Definition flat (lv : levels) : list assertion := flat_map snd lv.
+
+  Section Args.
+    Variable args : nat -> option V.
+
+    (* check_assertions: a list comprehension evaluates every assertion in order (an exception of
+       any of them escapes), then FitException if one was false *)
+    Fixpoint check_all (l : list assertion) : res bool :=
+      match l with
+      | [] => Ok true
+      | a :: l' =>
+          match holds args a with
+          | Ok x => match check_all l' with Ok y => Ok (x && y) | other => other end
+          | other => other
+          end
+      end.
+
+    Definition check_level (l : list assertion) : res unit :=
+      match check_all l with
+      | Ok true => Ok tt
+      | Ok false => Fit
+      | Fit => Fit
+      | Err e => Err e
+      end.
+
+    Definition has_arg (n : node V) : bool :=
+      match n with NPrior q => match args q with Some _ => true | None => false end | _ => true end.
+
+    (* TuplePrior.value_for_arguments: arguments[prior] for every member that is a prior *)
+    Definition tuple_status (ms : list (string * (nat * node V))) : res unit :=
+      if forallb (fun m => has_arg (snd (snd m))) ms then Ok tt else Err EKey.
+
+    Definition arith_status (o : binop) (l r : node V) : res unit :=
+      match inst V bin args l, inst V bin args r with
+      | IV a, IV b => if bin_ok o a b then Ok tt else Err EZero
+      | _, _ => Err EType
+      end.
+
+    Definition prior_status (q : nat) : res unit :=
+      match args q with Some _ => Ok tt | None => Err EKey end.
+
+    (* nodes that are AbstractPriorModels: they have their own `_assertions` and instance_for_arguments *)
+    Definition is_level (n : node V) : bool :=
+      match n with NBin _ _ _ _ _ | NModel _ _ _ | NColl _ => true | _ => false end.
+    Definition is_tuple (n : node V) : bool := match n with NTuple _ => true | _ => false end.
+
+    (* the first thing that goes wrong, in the order of the code; Ok tt: the instance is constructed *)
+    Fixpoint status (ignore : bool) (lv : levels) (n : node V) {struct n} : res unit :=
+      match n with
+      | NPrior q => prior_status q
+      | NConst _ => Ok tt
+      | NTuple ms => tuple_status ms
+      | NBin o ln rn l r =>
+          (* CompoundPrior: instance_for_arguments -> check_assertions; left_for_arguments, right_for_arguments *)
+          seq (if ignore then Ok tt else check_level (here lv))
+              (seq (status ignore (below ln lv) l)
+                   (seq (status ignore (below rn lv) r) (arith_status o l r)))
+      | NModel _ _ attrs =>
+          (* Model: check_assertions; tuple priors; prior models (Model, Collection, CompoundPrior) in
+             __dict__ order; direct priors *)
+          seq (if ignore then Ok tt else check_level (here lv))
+              (seq (fold_right (fun kc acc => match snd kc with NTuple ms => seq (tuple_status ms) acc | _ => acc end)
+                               (Ok tt) attrs)
+                   (seq (fold_right (fun kc acc => if is_level (snd kc)
+                                                   then seq (status ignore (below (fst kc) lv) (snd kc)) acc
+                                                   else acc) (Ok tt) attrs)
+                        (fold_right (fun kc acc => match snd kc with NPrior q => seq (prior_status q) acc | _ => acc end)
+                                    (Ok tt) attrs)))
+      | NColl attrs =>
+          (* Collection: check_assertions; every attribute in __dict__ order (a TuplePrior held by a
+             collection is stored as it is) *)
+          seq (if ignore then Ok tt else check_level (here lv))
+              (fold_right (fun kc acc => if is_tuple (snd kc) then acc
+                                         else seq (status ignore (below (fst kc) lv) (snd kc)) acc) (Ok tt) attrs)
+      end.
+
+    Definition instantiate (ignore : bool) (lv : levels) (n : node V) : res (ival V) :=
+      match status ignore lv n with
+      | Ok _ => Ok (inst V bin args n)
+      | Fit => Fit
+      | Err e => Err e
+      end.
+  End Args.
+
+  Definition of_res (r : res (ival V)) : verdict :=
+    match r with Ok i => VOk i | Fit => VAssert | Err e => VError e end.
+
+  (* instance_from_vector(vector, ignore_prior_limits=ignore) *)
+  Definition run (ignore : bool) (lims : list limit) (lv : levels) (n : node V) (vec : list V) : verdict :=
+    if negb (Nat.eqb (List.length vec) (prior_count V n)) then VLength
+    else
+      let args := zip_args V (ordered_ids V n) vec in
+      if ignore then of_res (instantiate args true lv n)
+      else if negb (within lims args) then VLimit
+      else of_res (instantiate args false lv n).
+
+  (* instance_from_path_arguments(path_arguments, ignore_assertions=ignore): calls _instance_for_arguments
+     directly, so neither limits nor the assertions of the ROOT level are looked at, while every child
+     level is checked.  Outside the property (which speaks about vectors); modelled to state the difference. *)
+  Definition drop_root (lv : levels) : levels :=
+    flat_map (fun e => match fst e with [] => [] | _ => [e] end) lv.
+
+  Definition run_paths (ignore : bool) (lv : levels) (n : node V) (args : nat -> option V) : verdict :=
+    of_res (instantiate args ignore (drop_root lv) n).
 End Gate.
 
-Arguments ALt {V}. Arguments ALe {V}. Arguments AAnd {V}. Arguments ALit {V}.
-Arguments VOk {V}. Arguments VLimit {V}. Arguments VAssert {V}. Arguments VLength {V}.
+Arguments ALt {V}. Arguments ALe {V}. Arguments AAnd {V}. Arguments ALit {V}. Arguments ALowB {V}. Arguments AGrB {V}.
+Arguments RLit {V}. Arguments RCmp {V}. Arguments RChain {V}.
+Arguments VOk {V}. Arguments VLimit {V}. Arguments VAssert {V}. Arguments VLength {V}. Arguments VError {V}.
 
 (* ---------- executable instance and correspondence cases ---------- *)
 Definition fverdict := verdict float.
+
+(* Python float division raises ZeroDivisionError exactly when the divisor compares equal to 0.0 *)
+Definition fbin_ok (o : binop) (a b : float) : bool :=
+  match o with ODiv => negb (PrimFloat.eqb b PrimFloat.zero) | _ => true end.
+Definition fof_bool (b : bool) : float := if b then PrimFloat.one else PrimFloat.zero.
+
+Definition err_eqb (a b : err) : bool :=
+  match a, b with
+  | EKey, EKey | EZero, EZero | EAttr, EAttr | EType, EType => true
+  | _, _ => false
+  end.
 
 Definition verdict_eqb (a b : fverdict) : bool :=
   match a, b with
   | VOk i, VOk j => ival_eqb i j
   | VLimit, VLimit | VAssert, VAssert | VLength, VLength => true
+  | VError e, VError f => err_eqb e f
   | _, _ => false
   end.
+
+Definition binop_eqb (a b : binop) : bool :=
+  match a, b with
+  | OAdd, OAdd | OSub, OSub | OMul, OMul | ODiv, ODiv => true
+  | _, _ => false
+  end.
+
+Fixpoint node_eqb (a b : node float) : bool :=
+  match a, b with
+  | NPrior p, NPrior q => Nat.eqb p q
+  | NConst x, NConst y => fbits_eqb x y
+  | NTuple xs, NTuple ys =>
+      (fix go (xs ys : list (string * (nat * node float))) : bool :=
+         match xs, ys with
+         | [], [] => true
+         | (k, (i, x)) :: xs', (l, (j, y)) :: ys' => String.eqb k l && Nat.eqb i j && node_eqb x y && go xs' ys'
+         | _, _ => false
+         end) xs ys
+  | NBin o ln rn l r, NBin o' ln' rn' l' r' =>
+      binop_eqb o o' && String.eqb ln ln' && String.eqb rn rn' && node_eqb l l' && node_eqb r r'
+  | NModel c ct xs, NModel d dt ys =>
+      String.eqb c d && list_eqb String.eqb ct dt &&
+      (fix go (xs ys : list (string * node float)) : bool :=
+         match xs, ys with
+         | [], [] => true
+         | (k, x) :: xs', (l, y) :: ys' => String.eqb k l && node_eqb x y && go xs' ys'
+         | _, _ => false
+         end) xs ys
+  | NColl xs, NColl ys =>
+      (fix go (xs ys : list (string * node float)) : bool :=
+         match xs, ys with
+         | [], [] => true
+         | (k, x) :: xs', (l, y) :: ys' => String.eqb k l && node_eqb x y && go xs' ys'
+         | _, _ => false
+         end) xs ys
+  | _, _ => false
+  end.
+
+Fixpoint assertion_eqb (a b : assertion float) : bool :=
+  match a, b with
+  | ALt l g, ALt l' g' | ALe l g, ALe l' g' => node_eqb l l' && node_eqb g g'
+  | AAnd x y, AAnd x' y' => assertion_eqb x x' && assertion_eqb y y'
+  | ALit x, ALit y => Bool.eqb x y
+  | ALowB s x g, ALowB s' x' g' => Bool.eqb s s' && assertion_eqb x x' && node_eqb g g'
+  | AGrB s l x, AGrB s' l' x' => Bool.eqb s s' && node_eqb l l' && assertion_eqb x x'
+  | _, _ => false
+  end.
+
+Definition opt_assertion_eqb (a b : option (assertion float)) : bool :=
+  match a, b with
+  | Some x, Some y => assertion_eqb x y
+  | None, None => true
+  | _, _ => false
+  end.
+
+(* one call of add_assertion: the level it was attached to, how the assertion was written (operands
+   are the live operand objects), and the object the operators returned (None: TypeError) *)
+Record attach := {
+  at_level : path;
+  at_recipe : recipe float;
+  at_built : option (assertion float)
+}.
+
+(* an observed outcome: the verdict and whether the exception was an exc.FitException *)
+Record obs := { o_v : fverdict; o_fit : bool }.
 
 Record case := {
   c_tree : node float;
   c_lims : list (limit float);
-  c_asserts : list (assertion float);
+  c_attach : list attach;
+  c_levels : levels float;    (* `_assertions` of every level of the live model (non-empty ones), with its path *)
   c_vec : list float;
-  c_strict : fverdict;        (* instance_from_vector(vec) *)
-  c_ignored : fverdict        (* instance_from_vector(vec, ignore_prior_limits=True) *)
+  c_strict : obs;             (* instance_from_vector(vec) *)
+  c_ignored : obs;            (* instance_from_vector(vec, ignore_prior_limits=True) *)
+  c_paths : option obs        (* instance_from_path_arguments({unique path: value}); None: not run (wrong length) *)
 }.
 
-Definition fgate := gate float fbin PrimFloat.ltb PrimFloat.leb.
+Definition fdenote := denote float PrimFloat.ltb PrimFloat.leb.
+Definition fdenote_fixed (r : recipe float) := option_map fst (denote_fixed float PrimFloat.ltb PrimFloat.leb r).
+Definition frun := run float fbin fbin_ok PrimFloat.ltb PrimFloat.leb fof_bool.
+Definition frun_paths := run_paths float fbin fbin_ok PrimFloat.ltb PrimFloat.leb fof_bool.
 
-Definition check_case (c : case) : bool :=
-  verdict_eqb (fgate false (c_lims c) (c_asserts c) (c_tree c) (c_vec c)) (c_strict c)
-  && verdict_eqb (fgate true (c_lims c) (c_asserts c) (c_tree c) (c_vec c)) (c_ignored c).
+(* the operators built the object the model says (chain_fix: the variant prepared for proposed_fixes/C03-chain-further) *)
+Definition attach_ok_v (chain_fix : bool) (a : attach) : bool :=
+  opt_assertion_eqb (if chain_fix then fdenote_fixed (at_recipe a) else fdenote (at_recipe a)) (at_built a).
+Definition attach_ok := attach_ok_v false.
+
+(* add_assertion put it on the level it was called on, in call order *)
+Definition expected_at (atts : list attach) (p : path) : list (assertion float) :=
+  flat_map (fun a => if path_eqb (at_level a) p then attached float (at_built a) else []) atts.
+
+Definition levels_agree (atts : list attach) (lv : levels float) : bool :=
+  forallb (fun e => list_eqb assertion_eqb (expected_at atts (fst e)) (snd e)) lv
+  && forallb (fun a => match attached float (at_built a) with
+                       | [] => true
+                       | _ => existsb (fun e => path_eqb (fst e) (at_level a)) lv
+                       end) atts.
+
+Definition obs_ok (m : fverdict) (o : obs) : bool :=
+  verdict_eqb m (o_v o) && Bool.eqb (is_fit float m) (o_fit o).
+
+Definition check_case_v (chain_fix : bool) (c : case) : bool :=
+  forallb (attach_ok_v chain_fix) (c_attach c)
+  && levels_agree (c_attach c) (c_levels c)
+  && obs_ok (frun false (c_lims c) (c_levels c) (c_tree c) (c_vec c)) (c_strict c)
+  && obs_ok (frun true (c_lims c) (c_levels c) (c_tree c) (c_vec c)) (c_ignored c)
+  && match c_paths c with
+     | Some o => obs_ok (frun_paths false (c_levels c) (c_tree c)
+                                    (zip_args float (ordered_ids float (c_tree c)) (c_vec c))) o
+     | None => true
+     end.
+
+(* the code as it is *)
+Definition check_case := check_case_v false.
+(* the code after proposed_fixes/C03-chain-further *)
+Definition check_case_chain_fix := check_case_v true.
